@@ -1276,7 +1276,12 @@ def _vocab(node):
 
 
 def _twin_undecided(a_node, b_node):
-    return _vocab(a_node) != _vocab(b_node)
+    """Twins written in *substantially* different vocabularies: at least three methods/functions/constructs used by one
+    and not by the other, or a closure on one side only.  A twin that merely gained or lost one call (`.min(..)`, `.end`
+    for `.start`, an extra `+ 1`) is still compared -- that is exactly the one-sided edit the twin rules exist for."""
+    va, vb = _vocab(a_node), _vocab(b_node)
+    d = va ^ vb
+    return len(d) >= 3 or "k:closure" in d
 
 
 # ---------------------------------------------------------------- F7
